@@ -4,6 +4,7 @@ import Proofs.MessageHdr
 import Proofs.MessageCounts
 import Proofs.MessageCompress
 import Proofs.ParseMessageOpt
+import Proofs.ParseUpdate
 /-!
 # C03 — messages survive render-then-parse unchanged; compression is sound
 
@@ -156,6 +157,48 @@ example : MsgOkE { id := 7, flags := 33152, opt := some { ttl := 16809984, paylo
   · simp
   · simp
   · simp
+
+/-- "dynamic update with its delete/prerequisite forms": a dynamic update message (opcode UPDATE; one zone entry of type
+SOA and a non-meta class; every other record set one of: an ordinary record — add, prerequisite with rdata —, a
+delete-RR record (class NONE, outside the prerequisite section, rdata kept), or a class/type-only record with
+RDLENGTH 0 — delete-rrset / delete-name (class ANY) and the "present"/"absent" prerequisites (class ANY / NONE in the
+prerequisite section)), rendered and parsed, comes back with every record set in place: same owner (up to ASCII case),
+same (zone class, `deleting` = ANY/NONE) pair, same type, ttl and rdata, one record set per record as the parser
+always builds updates.  Absolute names, no OPT/TSIG (`UMsgOk`). -/
+theorem update_forms (m : Message) (lim : Nat) (w : Bytes) (hok : UMsgOk m) (h : m.toWire lim false = .ok w)
+    (cfg : PCfg) (horg : cfg.origin = none) :
+    ∃ m', parseMessage cfg w = .ok m' ∧ m'.sim m ∧ m'.opcode = ConstsC03.opUPDATE := by
+  obtain ⟨m', hp, hs⟩ := parse_toWire_update m lim w hok h cfg horg
+  refine ⟨m', hp, hs, ?_⟩
+  have := hok.isUpd
+  simp only [isUpdate, beq_iff_eq] at this
+  simp [Message.opcode, hs.2.1, this]
+
+/-- … and the representation the `UpdateMessage` API builds for `present(name[, type])`, `absent(name[, type])` and
+`delete(name)` (RRsets whose own class is ANY/NONE) renders to exactly the same octets as the parser's
+representation `canonUpdate` of the same records, whatever the limit and mode — so the round trip of an API-built
+update yields its canonical form (the two differ as Python objects: known finding
+`C03/parse_render/library-eq/update-metaclass-form`). -/
+theorem update_forms_api (m : Message) (zc lim : Nat) (pt : Bool) :
+    (m.canonUpdate zc).toWire lim pt = m.toWire lim pt :=
+  toWire_canonUpdate m zc lim pt
+
+/-- non-vacuity of `update_forms`: zone `ex.` IN, prerequisite "name in use" (ANY ANY), an add, a delete-rrset,
+a delete-rr -/
+example : UMsgOk { id := 9, flags := 10240, q := [{ name := [[101,120],[]], rdclass := 1, rdtype := 6 }], an := [{ name := [[97],[101,120],[]], rdclass := 1, rdtype := 255, deleting := some 255 }], au := [{ name := [[97],[101,120],[]], rdclass := 1, rdtype := 1, ttl := 300, rdatas := [.raw [10,0,0,1]] }, { name := [[98],[101,120],[]], rdclass := 1, rdtype := 1, deleting := some 255 }, { name := [[99],[101,120],[]], rdclass := 1, rdtype := 1, deleting := some 254, rdatas := [.raw [10,0,0,2]] }] } := by
+  have wf : ∀ n : Name, n ∈ [[[101,120],[]], [[97],[101,120],[]], [[98],[101,120],[]], [[99],[101,120],[]]] → NameOk none n := by
+    intro n hn
+    simp at hn
+    rcases hn with rfl | rfl | rfl | rfl <;> exact ⟨_, rfl, by refine ⟨?_, ?_, ?_⟩ <;> decide, rfl⟩
+  refine ⟨rfl, by decide, by decide, by decide, rfl, rfl, ⟨_, rfl, ⟨wf _ (by simp), by decide, by decide, rfl, rfl, rfl, rfl⟩, by decide, by decide, ?_, ?_, ?_⟩, by decide⟩
+  · intro r hr; simp at hr; subst hr
+    exact ⟨wf _ (by simp), by decide, by decide, Or.inr ⟨rfl, rfl, rfl, rfl, Or.inl rfl⟩⟩
+  · intro r hr; simp at hr
+    rcases hr with rfl | rfl | rfl
+    · exact ⟨wf _ (by simp), by decide, by decide, Or.inl ⟨_, rfl, trivial, by decide, by decide, by decide, Or.inl ⟨rfl, by decide, by decide, by decide⟩⟩⟩
+    · exact ⟨wf _ (by simp), by decide, by decide, Or.inr ⟨rfl, rfl, rfl, rfl, Or.inl rfl⟩⟩
+    · exact ⟨wf _ (by simp), by decide, by decide, Or.inl ⟨_, rfl, trivial, by decide, by decide, by decide, Or.inr ⟨rfl, rfl, by decide⟩⟩⟩
+  · intro r hr; simp at hr
 
 /-- "the same … rcode incl. extended": splitting an rcode over the header nibble and the top octet of the OPT
 ttl (`rcode.to_flags`) and joining it again (`rcode.from_flags`) is the identity on 0..4095; the two parts do not
